@@ -370,6 +370,36 @@ theorem C04_source_find (ps : List (Pattern α ρ)) (idx : Nat) :
     simp only [C04_source_slot_test, Pattern.owns] at ih ⊢
     simp only [List.map_cons, List.findIdx?_cons, id, ih]
 
+theorem expGo_is_findSome (ms : List (FnMocker α ρ)) (idx k : Nat) :
+    ExpSkel.run.go (ms.map fun m => (decide (m.mode = .inOrder), findForOrder m.pats idx)) k =
+      (ms.zipIdx k).findSome? fun (m, j) =>
+        if m.mode = .inOrder then (findForOrder m.pats idx).map (fun i => (j, i)) else none := by
+  induction ms generalizing k with
+  | nil => rfl
+  | cons m ms ih =>
+    simp only [List.map_cons, ExpSkel.run.go, List.zipIdx_cons, List.findSome?_cons]
+    by_cases hm : m.mode = .inOrder
+    · simp only [hm, decide_true, ↓reduceIte]
+      cases findForOrder m.pats idx with
+      | none => simpa using ih (k + 1)
+      | some i => simp
+    · simp only [hm, decide_false, Bool.false_eq_true, ↓reduceIte]
+      exact ih (k + 1)
+
+/-- **C04 / C19, source agreement (the expected pattern of an out-of-order call).**
+    `find_ordered_expected_call_pattern_debug` as read from the current source names the first ordered mocker owning
+    the claimed slot and the pattern `find_call_pattern_for_call_order` finds there — unordered mockers are skipped. -/
+theorem C04_source_expected (s : Shared α ρ) (idx : Nat) :
+    Generated.expectedSkel.run (s.mockers.map fun m => (decide (m.mode = .inOrder), findForOrder m.pats idx)) =
+      some ((s.mockers.zipIdx 0).findSome? fun (m, j) =>
+        if m.mode = .inOrder then (findForOrder m.pats idx).map (fun i => (j, i)) else none) := by
+  have hc : (Generated.expectedSkel.overMockers ∧ Generated.expectedSkel.skipsUnordered ∧ Generated.expectedSkel.usesFind ∧
+      Generated.expectedSkel.yieldsFound ∧
+      (Generated.expectedSkel.shape = .findMap ∨ Generated.expectedSkel.shape = .forLoop ∨
+       Generated.expectedSkel.shape = .filterFindMap)) := by decide
+  unfold ExpSkel.run
+  rw [if_pos hc, expGo_is_findSome]
+
 /-- how an outcome of the source skeleton reads in the model -/
 def agreesO (m : MethodInfo) (fm : FnMocker α ρ) (s' : Shared α ρ) : OOut → EvalOutcome ρ → Prop
   | .errCallOrder idx, out => out = .err (.callOrderNotMatched m idx (s'.findOrderedExpected idx))
